@@ -41,7 +41,7 @@ CLAIMS = {
             "an entropy request, a negative status is an error, otherwise exactly one request of 4L/3 bytes whose bytes are the "
             "entropy verbatim, checksum over exactly them, reported length L.",
             "The CLI (printing, vanity retries, threads) is process-level and not decided."),
-    "C13": ("Solver-decided at the deserializers hdwallet owns: JSON numbers (serialization::num): every u64 through the production instantiation D = serde_json::Value, every u64/i64 and the sign guard through serde's primitive deserializers, the empty string; dynamic byte fields (serialization::bytes with D = serde_json::Value and the real hex decoder): every ASCII string of 2 and 4 bytes -- Ok iff 0x + an even number of hex digits, value exact.",
+    "C13": ("Solver-decided at the deserializers hdwallet owns: JSON numbers (serialization::num): every u64 through the production instantiation D = serde_json::Value, every u64/i64 and the sign guard through serde's primitive deserializers, the empty string; dynamic byte fields (serialization::bytes with D = serde_json::Value and the real hex decoder): every ASCII string of 2 and 4 bytes (3, 6 and 8 in the thorough tier) -- Ok iff 0x + an even number of hex digits, value exact.",
             "Error message text is cut (core::fmt::write writes nothing) in the string queries. Numeric strings of 1+ characters, storage keys and recipients still exceed the caps (ethnum's 256-bit string parser, 32-byte hex decode; attempts c13n_*). Symbolic floats do not finish. That every struct field is bound to these deserializers (serde derive) is not decided."),
     "C14": ("Solver-decided: one path component for every ASCII string up to 12 bytes (all canonical spellings, the 2^31 and 2^32 boundaries), and Path::from_str for every ASCII string of 2 and 3 bytes (missing root, empty and trailing components).",
             "Longer paths exceed the memory cap even with the memchr reference stubs; Display output is std integer formatting; Path::for_index builds its text with format!. All three are outside the claim."),
